@@ -256,7 +256,7 @@ theorem link_flag (cfg : Cfg) (ls : List Str) (j : Nat) :
   rw [covFrom_prot]
   unfold link
   let t0 : T := { texts := ls, parents := linkByIndent cfg ls, keep := ls.map (fun _ => false) }
-  have hwf0 : t0.WF := by simp [t0, T.WF, linkByIndent_length]
+  have hwf0 : t0.WF := by simp [t0, T.WF, linkByIndent_length_ll]
   have hB : ∀ j, flag (markBanners t0).keep j = true ↔ CovFrom protB ls 0 j := by
     intro j
     unfold markBanners
@@ -372,7 +372,7 @@ theorem eq_of_flag (a b : List Bool) (hl : a.length = b.length) (h : ∀ j, flag
 
 theorem link_keep_eq_scan (cfg : Cfg) (ls : List Str) : (link cfg ls).keep = flagsScan cfg 0 ls := by
   apply eq_of_flag
-  · rw [(link_wf cfg ls).2, link_texts, flagsScan_length]
+  · rw [(link_wf cfg ls).2, link_texts_ll, flagsScan_length]
   · intro j
     rw [Bool.eq_iff_iff, link_flag, flagsScan_flag]
     constructor
@@ -387,7 +387,7 @@ theorem keptAux_flagsScan (cfg : Cfg) (ls : List Str) : ∀ c, keptAux ls (flags
   | cons x rest ih => intro c; simp only [flagsScan, keptAux, keptScan, ih]
 
 theorem keptTexts_link_eq_scan (cfg : Cfg) (ls : List Str) : keptTexts (link cfg ls) = keptScan cfg 0 ls := by
-  rw [keptTexts_eq, link_texts, link_keep_eq_scan, keptAux_flagsScan]
+  rw [keptTexts_eq, link_texts_ll, link_keep_eq_scan, keptAux_flagsScan]
 
 
 /-! ## the scan is idempotent: one round of the filter is enough -/
@@ -507,17 +507,17 @@ theorem keptScan_idem (cfg : Cfg) (ls : List Str) :
 theorem bootstrapFuel_scan_stable (cfg : Cfg) (hi : cfg.ignoreBlank = true) (ls : List Str) (fuel : Nat) :
     (bootstrapFuel cfg fuel (keptScan cfg 0 ls)).texts = keptScan cfg 0 ls := by
   cases fuel with
-  | zero => simp [bootstrapFuel, link_texts]
+  | zero => simp [bootstrapFuel, link_texts_ll]
   | succ fuel =>
     unfold bootstrapFuel
     simp only [hi, if_true, keptTexts_link_eq_scan, keptScan_idem, bne_self_eq_false]
-    simp [link_texts]
+    simp [link_texts_ll]
 
 theorem bootstrap_texts_eq_scan (cfg : Cfg) (hi : cfg.ignoreBlank = true) (ls : List Str) :
     (bootstrap cfg ls).texts = keptScan cfg 0 ls := by
   unfold bootstrap
   cases ls with
-  | nil => simp [bootstrapFuel, link_texts, keptScan]
+  | nil => simp [bootstrapFuel, link_texts_ll, keptScan]
   | cons x rest =>
     show (bootstrapFuel cfg (rest.length + 1) (x :: rest)).texts = _
     generalize x :: rest = ls
@@ -527,9 +527,9 @@ theorem bootstrap_texts_eq_scan (cfg : Cfg) (hi : cfg.ignoreBlank = true) (ls : 
     · exact bootstrapFuel_scan_stable cfg hi ls _
     · rename_i heq
       simp at heq
-      rw [link_texts]
+      rw [link_texts_ll]
       have hs := keptTexts_sublist (link cfg ls)
-      rw [keptTexts_link_eq_scan, link_texts] at hs
+      rw [keptTexts_link_eq_scan, link_texts_ll] at hs
       exact (hs.eq_of_length heq).symm
 
 
